@@ -439,3 +439,241 @@ Example C16_stdin_same_example :
   get_validate_errors (mkget "" false (mknoise false false false) false false false false) false = 0 /\
   holds_a_document (mkraw [1] None).
 Proof. repeat split; try reflexivity. left. discriminate. Qed.
+
+(* ================================================================== *)
+(* END TO END: the glue model composed with the library MODELS (adapters: Spec/CliLibSpec.v,
+   proofs: Proofs/CliCompose.v).  The abstract library results the theorems above quantify over are
+   instantiated here with what Model/Eval.v, Model/Diff.v and Model/PathsSearch.v / PathsPrint.v
+   compute. *)
+From Coq Require Import NArith Permutation.
+From YP Require Import PyVal Doc Generated PathParser PathPrinter Searches CliCompose.
+From YP Require Eval SpecC15 EvalGood EvalPure Diff C06Spec PathsSearch PathsPrint.
+
+(* ------------------------------------------------------------------ *)
+(* yaml-get = Cli.get_main around Eval.get_required (CliLibSpec.get_tool) *)
+
+(* the document loaded, the required query of the Eval model on it ended normally with [items]:
+   exit 0 exactly when items is non-empty, and then stdout's data lines are one rendering per item,
+   in query order.  Guards: the command line is valid; every matched container renders as JSON
+   (json.dumps / a recursive alias are oracles).  The value facts F (identity, str(), ISO texts,
+   the JSON outcome) are oracles; the KIND of each line (JSON / NUL / text) is computed from the
+   Eval result itself (CliLibSpec.kind_of). *)
+Theorem C16_get_end_to_end :
+  forall lit re_search nstr vstr kw_handler creator F doc_of a tty load qverb p od items,
+    get_validate_errors a tty = 0 -> get_yaml_data load = L1Ok od ->
+    get_query lit re_search nstr vstr kw_handler creator doc_of p od = (items, Eval.Done) ->
+    json_ok (map (result_obj F) items) = true ->
+    exists r, get_tool lit re_search nstr vstr kw_handler creator F doc_of a tty load qverb p = Some r /\
+      (r_status r = Exit 0 <-> items <> []) /\
+      (items <> [] -> data_lines (r_out r) = map render_node (map (result_obj F) items)).
+Proof. exact get_end_to_end. Qed.
+Print Assumptions C16_get_end_to_end.
+
+(* the query raises: no data line and a non-zero status (1: YAML Path error, 2: EYAML error) *)
+Theorem C16_get_end_to_end_error :
+  forall lit re_search nstr vstr kw_handler creator F doc_of a tty load qverb p od items e,
+    get_validate_errors a tty = 0 -> get_yaml_data load = L1Ok od ->
+    get_query lit re_search nstr vstr kw_handler creator doc_of p od = (items, Eval.Err e) ->
+    exists r, get_tool lit re_search nstr vstr kw_handler creator F doc_of a tty load qverb p = Some r /\
+      r_status r <> Exit 0 /\ data_lines (r_out r) = [] /\
+      (forall k, e = YPE k -> r_status r = Exit 1) /\ (e = EyamlExc -> r_status r = Exit 2).
+Proof. exact get_end_to_end_error. Qed.
+Print Assumptions C16_get_end_to_end_error.
+
+(* with C15 (collector-free paths, oracles that answer, clean keyword / creator models): the
+   composed tool always answers, with status 0 or 1, and 0 exactly when something matched *)
+Theorem C16_get_end_to_end_total :
+  forall lit re_search nstr vstr kw_handler creator F doc_of,
+    (forall s, exists r, lit s = Ok r /\ (forall c, r <> LCrash c)) ->
+    (forall p s, exists r, re_search p s = Ok r) ->
+    (forall inv k ps v c, EvalGood.sres EvalGood.coords_or_list (kw_handler inv k ps v c)) ->
+    (forall inv k ps v c, EvalPure.nomut (kw_handler inv k ps v c)) ->
+    (forall segs i v c, EvalGood.sres EvalGood.is_coords (creator segs i v c)) ->
+    forall a tty load qverb p od,
+      SpecC15.in_fragment p = true ->
+      get_validate_errors a tty = 0 -> get_yaml_data load = L1Ok od ->
+      let g := get_query lit re_search nstr vstr kw_handler creator doc_of p od in
+      json_ok (map (result_obj F) (fst g)) = true ->
+      exists r, get_tool lit re_search nstr vstr kw_handler creator F doc_of a tty load qverb p = Some r /\
+        (r_status r = Exit 0 \/ r_status r = Exit 1) /\
+        (r_status r = Exit 0 <-> (snd g = Eval.Done /\ fst g <> [])).
+Proof. exact get_end_to_end_total. Qed.
+Print Assumptions C16_get_end_to_end_total.
+
+Definition e2e_lit (s : string) : outcome litres :=
+  Ok (match py_int s with Some z => LVal (PInt z) | None => LFail end).
+Definition e2e_re (_ _ : string) : outcome reres := Ok (RMatch false).
+Definition e2e_kw (_ : bool) (_ : keyword) (_ : string) (_ : Eval.rval) (_ : Eval.ctx) : Eval.gen Eval.rval := (Eval.gnil).
+Definition e2e_cr (_ : list Eval.pseg) (_ : nat) (_ : Eval.rval) (_ : Eval.ctx) : Eval.gen Eval.rval := (Eval.gerr (YPE Generic)).
+Definition e2e_leaf (n : N) (v : pyval) : node := NLeaf (mkinfo n None false None) v.
+(* {a: 1, b: {c: x}} *)
+Definition e2e_doc : node :=
+  NMap (mkinfo 0 None true None)
+    [(e2e_leaf 1 (PStr "a"), e2e_leaf 2 (PInt 1));
+     (e2e_leaf 3 (PStr "b"), NMap (mkinfo 4 None true None) [(e2e_leaf 5 (PStr "c"), e2e_leaf 6 (PStr "x"))])].
+Definition e2e_facts : value_facts :=
+  mkfacts (fun v => match v with Eval.RNode n => N.to_nat (node_oid n) | _ => 99 end)
+          (fun _ => false) (fun _ => false)
+          (fun v => match v with Eval.RNode (NLeaf _ pv) => py_str pv | _ => "" end)
+          (fun _ => "") (fun _ => "") (fun _ => JOk).
+Definition e2e_get (text : string) (load : raw1) : option crun :=
+  match Eval.prepare 20 text with
+  | Ok p => get_tool e2e_lit e2e_re (fun _ => "") (fun _ => "") e2e_kw e2e_cr e2e_facts (fun _ => e2e_doc)
+              ex_args_get true load 0 p
+  | _ => None
+  end.
+Example C16_get_end_to_end_example :
+  e2e_get "*" (R1Doc (Some 0)) = Some (mkrun (Exit 0) [OText "1"; OJson 4] []) /\
+  e2e_get "b.c" (R1Doc (Some 0)) = Some (mkrun (Exit 0) [OText "x"] []) /\
+  e2e_get "zz" (R1Doc (Some 0)) = Some (mkrun (Exit 1) [] []) /\
+  e2e_get "a" (R1Doc None) = Some (mkrun (Exit 1) [] []).
+Proof. vm_compute. repeat split; reflexivity. Qed.
+Example C16_get_end_to_end_example_hyps :
+  match Eval.prepare 20 "*" with
+  | Ok p => SpecC15.in_fragment p = true /\
+            exists items, get_query e2e_lit e2e_re (fun _ => "") (fun _ => "") e2e_kw e2e_cr (fun _ => e2e_doc) p (Some 0)
+                          = (items, Eval.Done) /\ items <> [] /\ json_ok (map (result_obj e2e_facts) items) = true
+  | _ => False
+  end.
+Proof. vm_compute. split; [reflexivity|]. eexists. split; [reflexivity|]. split; [discriminate|reflexivity]. Qed.
+
+(* ------------------------------------------------------------------ *)
+(* yaml-diff = Cli.diff_main around Diff.compare_to *)
+
+(* the two documents the glue picks (positions li / ri of the two loaded streams) go through the
+   differ model; [report] is get_report's order, any permutation of compare_to's entries (its sort by
+   line / column is not modelled); every entry renders.  Exit 0 exactly when the model's entries show
+   no difference, exit 1 exactly when they do, and the printed entries are those the options select *)
+Theorem C16_diff_end_to_end :
+  forall path_eq cfg (doc_of : nat -> node) renders estr a lhs rhs li ri l r es report,
+    dr_picked (diff_main estr a lhs rhs (LOk [])) = Some (li, ri) ->
+    nth_error (src_stream estr lhs) li = Some l -> nth_error (src_stream estr rhs) ri = Some r ->
+    Diff.compare_to path_eq cfg (doc_of l) (doc_of r) = Ok es ->
+    Permutation report es ->
+    let entries := map (dentry_of renders) report in
+    all_render entries ->
+    let run := dr_run (diff_main estr a lhs rhs (LOk entries)) in
+    (r_status run = Exit 0 <-> C06Spec.shows_difference es = false) /\
+    (r_status run = Exit 1 <-> C06Spec.shows_difference es = true) /\
+    CliSpec.printed_entries (r_out run) =
+      (if n_quiet (da_noise a) then [] else selected_from a (map fst entries) 0).
+Proof. exact diff_end_to_end. Qed.
+Print Assumptions C16_diff_end_to_end.
+
+(* with C06_nonsame_iff_differ_positional_partial - the property's wording: yaml-diff exits 0 exactly
+   when the two documents are data-equal.  Guards inherited from C06: positional comparison at every
+   list (--arrays position and --aoh position|dpos, the defaults), real documents (unique scalar
+   keys), no tagged nodes *)
+Theorem C16_diff_exit_iff_data_equal :
+  forall path_eq cfg hm (doc_of : nat -> node) renders estr a lhs rhs li ri l r es report,
+    C06Spec.uniform cfg Diff.ArrPosition hm -> hm = Diff.AohPosition \/ hm = Diff.AohDpos ->
+    C06Spec.wf_doc (doc_of l) = true -> C06Spec.wf_doc (doc_of r) = true ->
+    C06Spec.untagged (doc_of l) = true -> C06Spec.untagged (doc_of r) = true ->
+    dr_picked (diff_main estr a lhs rhs (LOk [])) = Some (li, ri) ->
+    nth_error (src_stream estr lhs) li = Some l -> nth_error (src_stream estr rhs) ri = Some r ->
+    Diff.compare_to path_eq cfg (doc_of l) (doc_of r) = Ok es ->
+    Permutation report es ->
+    let entries := map (dentry_of renders) report in
+    all_render entries ->
+    let run := dr_run (diff_main estr a lhs rhs (LOk entries)) in
+    (r_status run = Exit 0 <-> C06Spec.data_eq (doc_of l) (doc_of r) = true) /\
+    (r_status run = Exit 1 <-> C06Spec.data_eq (doc_of l) (doc_of r) = false).
+Proof. exact diff_exit_iff_data_equal. Qed.
+Print Assumptions C16_diff_exit_iff_data_equal.
+
+(* with C06_nonsame_iff_differ_partial: every uniform option pair without identity keys - exit 0
+   exactly when the documents are equal up to what the options disregard *)
+Theorem C16_diff_exit_iff_equiv :
+  forall path_eq cfg am hm (doc_of : nat -> node) renders estr a lhs rhs li ri l r es report,
+    C06Spec.uniform cfg am hm -> C06Spec.unkeyed hm = true ->
+    C06Spec.wf_doc (doc_of l) = true -> C06Spec.wf_doc (doc_of r) = true ->
+    C06Spec.untagged (doc_of l) = true -> C06Spec.untagged (doc_of r) = true ->
+    dr_picked (diff_main estr a lhs rhs (LOk [])) = Some (li, ri) ->
+    nth_error (src_stream estr lhs) li = Some l -> nth_error (src_stream estr rhs) ri = Some r ->
+    Diff.compare_to path_eq cfg (doc_of l) (doc_of r) = Ok es ->
+    Permutation report es ->
+    let entries := map (dentry_of renders) report in
+    all_render entries ->
+    let run := dr_run (diff_main estr a lhs rhs (LOk entries)) in
+    (r_status run = Exit 0 <-> C06Spec.equiv am hm (doc_of l) (doc_of r) = true).
+Proof. exact diff_exit_iff_equiv. Qed.
+Print Assumptions C16_diff_exit_iff_equiv.
+
+(* the picked positions exist in the two streams, whatever the report *)
+Theorem C16_diff_picked_in_streams :
+  forall estr a lhs rhs rep li ri,
+    dr_picked (diff_main estr a lhs rhs rep) = Some (li, ri) ->
+    (exists l, nth_error (src_stream estr lhs) li = Some l) /\
+    (exists r, nth_error (src_stream estr rhs) ri = Some r).
+Proof. exact diff_picked_in_streams. Qed.
+Print Assumptions C16_diff_picked_in_streams.
+
+Definition e2e_cfg : Diff.dcfg := Diff.mkdcfg false [] [] None None None None.
+(* document 1 = {a: 1, b: {c: x}}, document 2 = {a: 2, b: {c: x}}, document 3 = document 1 loaded again *)
+Definition e2e_doc2 : node :=
+  NMap (mkinfo 10 None true None)
+    [(e2e_leaf 1 (PStr "a"), e2e_leaf 12 (PInt 2));
+     (e2e_leaf 3 (PStr "b"), NMap (mkinfo 14 None true None) [(e2e_leaf 5 (PStr "c"), e2e_leaf 6 (PStr "x"))])].
+Definition e2e_docs (i : nat) : node := match i with 2 => e2e_doc2 | _ => e2e_doc end.
+Definition e2e_diff (l r : nat) : option diff_run :=
+  match Diff.compare_to Diff.path_eq_real e2e_cfg (e2e_docs l) (e2e_docs r) with
+  | Ok es => Some (diff_main 9 ex_args_diff (ex_src "l.yaml" [l]) (ex_src "r.yaml" [r])
+                     (LOk (map (dentry_of (fun _ => None)) es)))
+  | _ => None
+  end.
+Example C16_diff_end_to_end_example :
+  option_map (fun x => (r_status (dr_run x), CliSpec.printed_entries (r_out (dr_run x)), dr_picked x)) (e2e_diff 1 2)
+    = Some (Exit 1, [0], Some (0, 0)) /\
+  option_map (fun x => (r_status (dr_run x), CliSpec.printed_entries (r_out (dr_run x)), dr_picked x)) (e2e_diff 1 3)
+    = Some (Exit 0, [], Some (0, 0)) /\
+  C06Spec.data_eq (e2e_docs 1) (e2e_docs 2) = false /\ C06Spec.data_eq (e2e_docs 1) (e2e_docs 3) = true.
+Proof. vm_compute. repeat split; reflexivity. Qed.
+Example C16_diff_end_to_end_example_hyps :
+  C06Spec.uniform e2e_cfg Diff.ArrPosition Diff.AohPosition /\
+  C06Spec.wf_doc e2e_doc = true /\ C06Spec.wf_doc e2e_doc2 = true /\
+  C06Spec.untagged e2e_doc = true /\ C06Spec.untagged e2e_doc2 = true /\
+  dr_picked (diff_main 9 ex_args_diff (ex_src "l.yaml" [1]) (ex_src "r.yaml" [2]) (LOk [])) = Some (0, 0) /\
+  nth_error (src_stream 9 (ex_src "l.yaml" [1])) 0 = Some 1.
+Proof. split; [split; intros nc; reflexivity|]. vm_compute. repeat split; reflexivity. Qed.
+
+(* ------------------------------------------------------------------ *)
+(* yaml-paths = Cli.paths_docs around PathsSearch.search_doc, against PathsPrint.process_doc *)
+
+(* one loaded document, no --except, no --values: fed with the search model's hits (adapter
+   CliLibSpec.results_of), the glue's per-document step prints exactly the lines PathsPrint's model of
+   process_yaml_file + print_results computes, in the same order, and its state is 1 exactly when an
+   expression was rejected.  Guards: every hit has a printable path (its text parses - C07), and the
+   file name is not a padded "-" (PathsPrint compares the name with "-" without stripping it) *)
+Theorem C16_paths_end_to_end :
+  forall lit re_search value_text mt sp o d a fl exprs file idx lines bad,
+    same_print_options a fl sp exprs ->
+    is_dash file = String.eqb file "-" ->
+    hits_printable lit re_search mt sp o exprs d ->
+    PathsPrint.process_doc lit re_search value_text mt sp o d fl exprs file (Z.of_nat idx) = Ok (lines, bad) ->
+    exists nh,
+      paths_docs a file [PDoc (results_of lit re_search mt sp o exprs d) []] idx 0 =
+        ((if bad then 1 else 0), hints nh ++ map (fun t => OPath t None) lines, None).
+Proof. exact paths_end_to_end. Qed.
+Print Assumptions C16_paths_end_to_end.
+
+Definition e2e_opts : PathsSearch.opts := PathsSearch.mkopts true false false true false false.
+Definition e2e_flags : PathsPrint.pflags := PathsPrint.mkpflags false false false false false.
+Definition e2e_pargs (exprs : list string) :=
+  mkpaths exprs [] false false false false false false true false false false false.
+Definition e2e_exprs : list string := ["=1"; "?"; "=x"].
+Example C16_paths_end_to_end_example :
+  PathsPrint.process_doc e2e_lit e2e_re (fun _ => Ok "") [] Dot e2e_opts e2e_doc e2e_flags e2e_exprs "f.yaml" 0
+    = Ok (["f.yaml/0[=1]: a"; "f.yaml/0[=x]: b.c"], true) /\
+  paths_docs (e2e_pargs e2e_exprs) "f.yaml" [PDoc (results_of e2e_lit e2e_re [] Dot e2e_opts e2e_exprs e2e_doc) []] 0 0
+    = (1, [OHint; OPath "f.yaml/0[=1]: a" None; OPath "f.yaml/0[=x]: b.c" None], None).
+Proof. vm_compute. split; reflexivity. Qed.
+Example C16_paths_end_to_end_example_hyps :
+  same_print_options (e2e_pargs e2e_exprs) e2e_flags Dot e2e_exprs /\
+  is_dash "f.yaml" = String.eqb "f.yaml" "-" /\
+  hits_printable e2e_lit e2e_re [] Dot e2e_opts e2e_exprs e2e_doc.
+Proof.
+  split; [repeat split|]. split; [reflexivity|].
+  intros e tm hs h I G S H.
+  destruct I as [<-|[<-|[<-|[]]]]; vm_compute in G; inversion G; subst tm; vm_compute in S; inversion S; subst hs;
+    simpl in H; repeat (destruct H as [<-|H]; [eexists; vm_compute; reflexivity|]); destruct H.
+Qed.
